@@ -136,6 +136,7 @@ var plans = map[string]Plan{
 			{Name: "orders", Pkg: "./checks/c07", Run: "^TestOrders$", Rapid: true, Shards: [2]int{6, 12}, Checks: [2]int{600, 8000}},
 			{Name: "all-orders", Pkg: "./checks/c07", Run: "^TestAllOrders$", Rapid: true, Shards: [2]int{6, 16}, Checks: [2]int{50, 500}},
 			{Name: "invalid", Pkg: "./checks/c07", Run: "^TestInvalid$", Rapid: true, Shards: [2]int{4, 8}, Checks: [2]int{500, 6000}},
+			{Name: "known-shapes", Pkg: "./checks/c07", Run: "^TestKnownShapes$", Shards: [2]int{1, 1}},
 		},
 	},
 	"C09": {
